@@ -56,7 +56,8 @@ def design_paths(fn, iterable=False):
             return env
         raise Inconclusive("statement %s" % unparse(st))
     out = []
-    for kind, st, env, trail in enumerate_paths(fn.body, {"z": x ** -1}, oracle, assign):
+    from ..equiv import desugar_conditionals
+    for kind, st, env, trail in enumerate_paths(desugar_conditionals(docstring_free(fn.body)), {"z": x ** -1}, oracle, assign):
         if kind == "return":
             out.append((DesignEval(env).ev(st.value), env, st, trail))
     return out
@@ -220,12 +221,22 @@ def run(chk, repo):
                 if st.names[0] in ("pole", "z"):
                     C = opaque("cos", RF.sym("cutoff"))
                     E = 2 * (n0 * n0 + n1 * n1 + 2 * n0 * n1 * C) - (d0 * d0 + d1 * d1 + 2 * d0 * d1 * C)
+                    # locals that hold cos(cutoff) when they are tested (first binding, conditional sub-expressions
+                    # written as statements the way design_paths reads them)
+                    from ..equiv import desugar_conditionals as _dsg
+                    cos_names = {"denR"}
+                    for a_ in ast.walk(ast.Module(body=_dsg(docstring_free(st.node.body)), type_ignores=[])):
+                        if isinstance(a_, ast.Assign) and len(a_.targets) == 1 and isinstance(a_.targets[0], ast.Name) \
+                                and unparse(a_.value) == "cos(cutoff)":
+                            cos_names.add(a_.targets[0].id)
+
                     def _falsy_den(t_, p_):
                         # the path on which cos(cutoff) is zero (and is replaced by 1): `not denR` taken / `denR` not taken
                         while isinstance(t_, ast.UnaryOp) and isinstance(t_.op, ast.Not):
                             t_, p_ = t_.operand, not p_
-                        return unparse(t_) in ("denR", "denR != 0", "cos(cutoff)") and not p_ or \
-                            (unparse(t_) in ("denR == 0",) and p_)
+                        tx = unparse(t_)
+                        return (tx in cos_names or tx == "cos(cutoff)" or any(tx == "%s != 0" % n_ for n_ in cos_names)) and not p_ \
+                            or (any(tx == "%s == 0" % n_ for n_ in cos_names) and p_)
                     skip = any(_falsy_den(t, p) for t, p in trail)
                     if not skip:
                         red = reduce_relations(E)
